@@ -155,7 +155,7 @@ type vShape struct {
 
 var vShapeTiny = vShape{strLens: []int{0, 2}, dataLens: []int{0, 3}, listLens: []int{0, 2}, dirLens: []int{0, 1}}
 var vShapeQuick = vShape{strLens: []int{0, 1, 3}, dataLens: []int{0, 1, 5}, listLens: []int{0, 1, 2}, dirLens: []int{0, 2}}
-var vShapeThorough = vShape{strLens: []int{0, 1, 2, 3, 4, 255}, dataLens: []int{0, 1, 2, 4, 8, 256}, listLens: []int{0, 1, 2, 3, 4, 16}, dirLens: []int{0, 1, 2}}
+var vShapeThorough = vShape{strLens: []int{0, 1, 2, 3, 4}, dataLens: []int{0, 1, 2, 4, 8}, listLens: []int{0, 1, 2, 3, 4}, dirLens: []int{0, 1, 2}}
 
 func vPick(name string, opts []int) int { return opts[ndChoice(name, len(opts))] }
 
